@@ -132,6 +132,92 @@ fn_if_case!(c17_fn_if_zero, 3);
 fn_if_case!(c17_fn_if_empty_list, 4);
 fn_if_case!(c17_fn_if_empty_string, 5);
 
+// ---- C16: `@each` loop variables are local to the loop: what
+// store_local_values saves and restore_local_values puts back.  The three
+// method bodies (store_local_values, restore_local_values and the chain
+// lookup get_local_or_none they may be confused with) are extracted WITHOUT
+// textual substitution as methods of a stand-in scope whose `variables`
+// field is a four-slot table behind a RefCell instead of a
+// Mutex<BTreeMap<Name, Value>>, with names and values instantiated at u8
+// (listed abstraction: CBMC does not finish on BTreeMap). ----
+pub(crate) mod saverestore {
+    use std::cell::{RefCell, RefMut};
+    pub type Name = u8;
+    pub type Value = u8;
+    pub struct VarMap(pub [Option<u8>; 4]);
+    impl VarMap {
+        pub fn get(&self, k: &u8) -> Option<&u8> {
+            self.0[(*k & 3) as usize].as_ref()
+        }
+        pub fn insert(&mut self, k: u8, v: u8) -> Option<u8> {
+            self.0[(k & 3) as usize].replace(v)
+        }
+        pub fn remove(&mut self, k: &u8) -> Option<u8> {
+            self.0[(*k & 3) as usize].take()
+        }
+    }
+    pub struct Lock(pub RefCell<VarMap>);
+    impl Lock {
+        pub fn lock(&self) -> Result<RefMut<'_, VarMap>, ()> {
+            Ok(self.0.borrow_mut())
+        }
+    }
+    pub struct Scope {
+        pub variables: Lock,
+        pub parent: Option<&'static Scope>,
+    }
+    impl Scope {
+        pub fn with(vars: [Option<u8>; 4], parent: Option<&'static Scope>) -> Scope {
+            Scope { variables: Lock(RefCell::new(VarMap(vars))), parent }
+        }
+        pub fn own(&self, k: u8) -> Option<u8> {
+            self.variables.0.borrow().0[(k & 3) as usize]
+        }
+//@range file=rsass/src/variablescope.rs impl="impl Scope" fn=store_local_values
+//@  header: pub fn store_local_values(&self, names: &[Name]) -> Vec<(Name, Option<Value>)>
+//@end
+//@range file=rsass/src/variablescope.rs impl="impl Scope" fn=restore_local_values
+//@  header: pub fn restore_local_values(&self, data: Vec<(Name, Option<Value>)>)
+//@end
+//@range file=rsass/src/variablescope.rs impl="impl Scope" fn=get_local_or_none
+//@  header: pub fn get_local_or_none(&self, name: &Name) -> Option<Value>
+//@end
+    }
+}
+
+/// C16: `@each` variables are local to the loop.  store_local_values saves
+/// the loop scope's OWN entries only (a variable of an enclosing scope is
+/// saved as "not defined here"), and restore_local_values puts back exactly
+/// that: after the loop the scope's own table is what it was, and a name it
+/// did not define resolves to the enclosing scope's (possibly changed)
+/// variable again.
+#[kani::proof]
+#[kani::unwind(6)]
+fn c16_each_save_and_restore_touch_only_the_own_scope() {
+    use saverestore::Scope;
+    let (own1, outer2, outer2_later): (u8, u8, u8) = (kani::any(), kani::any(), kani::any());
+    let parent: &'static Scope = Box::leak(Box::new(Scope::with([None, None, Some(outer2), None], None)));
+    let scope = Scope::with([None, Some(own1), None, None], Some(parent));
+    let names: [u8; 3] = [1, 2, 3];
+    let saved = scope.store_local_values(&names);
+    assert!(saved.len() == 3);
+    assert!(saved[0] == (1, Some(own1)), "the scope's own variable is saved with its value");
+    assert!(saved[1] == (2, None), "a variable of an ENCLOSING scope is not copied: it is saved as not defined here");
+    assert!(saved[2] == (3, None), "an undefined variable is saved as undefined");
+    // the loop binds all three in the own scope (define inserts there)
+    let _ = scope.variables.lock().unwrap().insert(1, 101);
+    let _ = scope.variables.lock().unwrap().insert(2, 102);
+    let _ = scope.variables.lock().unwrap().insert(3, 103);
+    // ... and meanwhile the enclosing scope's variable is changed (!global)
+    let _ = parent.variables.lock().unwrap().insert(2, outer2_later);
+    scope.restore_local_values(saved);
+    assert!(scope.own(1) == Some(own1), "the own variable has its old value again");
+    assert!(scope.own(2) == None && scope.own(3) == None, "loop variables that were not defined in this scope are removed from it");
+    assert!(scope.get_local_or_none(&2) == Some(outer2_later), "the name resolves to the enclosing scope's current variable again");
+    assert!(scope.get_local_or_none(&3) == None);
+    assert!(parent.own(2) == Some(outer2_later) && parent.own(1) == None && parent.own(3) == None, "the enclosing scope is not touched");
+}
+
 #[kani::proof]
 fn cover_scopefns() {
     let t: u8 = kani::any();
